@@ -2,9 +2,11 @@
   C14 — the verdict does not depend on map iteration order: neither on the order in which the schema's maps
   (properties, patternProperties, $defs, definitions, dependencies, dependentRequired, dependentSchemas) are listed, nor
   on the order of the members of the objects of the instance, at any depth.
-  Property theorems only (helper lemmas: JSV/Proofs/InvPerm.lean … InvPerm5.lean, InvPermLoops.lean).
+  Property theorems only (helper lemmas: JSV/Proofs/InvPerm.lean … InvPerm5.lean, InvPermLoops.lean; for Resolve:
+  ResPerm.lean, ResPerm2.lean).
 -/
 import JSV.Proofs.InvPermLoops
+import JSV.Proofs.ResPerm2
 import JSV.Props.C01
 import JSV.Props.C08
 namespace JSV.C14
@@ -175,6 +177,87 @@ theorem validate_perm_repr_invariant (env : VEnv) (hwf : EnvWF env) (hst : Store
         (permJson_WF j1 j2 hj hw),
       C08.validate_repr_entry env hwf.hash_respects supported fuel root g1 j1 h1 hw, ha, hb]
 
+/-! ## Resolve
+
+schema.go's `everyChild` / `all` iterate maps by sorted key, and so do `Node.children` / `allNodes` in the model;
+checkStructure ranges over the maps with reflect's MapRange (`childEntries`: list order).  In Go the info objects
+live in a map; in the model the table `infos` is a list in registration order, so on a store whose maps are listed in
+another order the table comes out in another order.  Everything else is the same. -/
+
+/-- the keys of every schema-valued map (`$defs`, definitions, dependencies, dependentSchemas, patternProperties,
+    properties) of every schema object are distinct, as in a Go map -/
+abbrev StoreKeysNodup (st : Store) : Prop := Go.RPerm.StoreKeysNodup st
+
+theorem storeKeysNodup_iff (st : Store) :
+    StoreKeysNodup st ↔ ∀ i n, st.get? i = some n →
+      ∀ j kvs, ChildField.keyed j (some kvs) ∈ n.childFields → (kvs.map (·.1)).Nodup := Iff.rfl
+
+/-- `slices.Sorted(maps.Keys(m))`: the enumeration order of a map with distinct keys is irrelevant -/
+theorem sortByKey_perm (l₁ l₂ : List (String × NodeId)) (hp : l₁.Perm l₂) (hn : (l₁.map (·.1)).Nodup) :
+    sortByKey l₁ = sortByKey l₂ :=
+  Go.RPerm.sortByKey_perm hp hn
+
+/-- everyChild: the same children in the same order -/
+theorem children_perm (a b : Node) (h : permNode a b)
+    (hn : ∀ j kvs, ChildField.keyed j (some kvs) ∈ a.childFields → (kvs.map (·.1)).Nodup) :
+    b.children = a.children :=
+  Go.RPerm.children_perm h hn
+
+/-- checkStructure's range over the fields: the same entries (child, path), in another order -/
+theorem childEntries_perm (a b : Node) (h : permNode a b) (path : String) :
+    (Go.childEntries a path).Perm (Go.childEntries b path) :=
+  Go.RPerm.childEntries_perm h path
+
+/-- checkLocal: `.all` over patternProperties, `.any` over the two forms of `dependencies` -/
+theorem checkLocalOk_perm (env : Go.Env) (a b : Node) (h : permNode a b) :
+    Go.checkLocalOk env b = Go.checkLocalOk env a :=
+  Go.RPerm.checkLocalOk_perm env h
+
+/-- checkStructure: the same refusal, or the same schemas registered under the same paths, in another order -/
+theorem checkStructure_perm_invariant (st st' : Store) (hst : permStore st st') (root : NodeId) :
+    match Go.checkStructure st (st.size + 2) [(root, "")] [], Go.checkStructure st' (st'.size + 2) [(root, "")] [] with
+    | .ok a, .ok b => a.Perm b
+    | .err, .err => True
+    | _, _ => False :=
+  Go.RPerm.checkStructure_perm_outcome st st' hst root
+
+/-- Schema.all: the same schemas in the same order -/
+theorem allNodes_perm (st st' : Store) (hst : permStore st st') (hn : StoreKeysNodup st) (fuel : Nat)
+    (work : List NodeId) : Go.allNodes st' fuel work = Go.allNodes st fuel work :=
+  Go.RPerm.allNodes_perm st st' hst hn fuel work
+
+/-- dereferenceJSONPointer: map lookups by key -/
+theorem dereference_perm (st st' : Store) (hst : permStore st st') (hn : StoreKeysNodup st) (strict nie : Bool)
+    (root : NodeId) (ptr : String) :
+    Pointer.dereference st' strict nie root ptr = Pointer.dereference st strict nie root ptr :=
+  Go.RPerm.dereference_perm st st' hst hn strict nie root ptr
+
+/-- **Resolve does not depend on map iteration order.**  On a store that differs only in the order in which the maps
+    of the schema objects are listed (keys distinct), `Resolve` ends the same way — the same kind of failure, or
+    success with the same root, draft, Loader log and, for every schema, the same info object (base, URI, anchors,
+    resolved references).  The `infos` tables are compared as maps: their list order is checkStructure's
+    registration order (see the example below). -/
+theorem resolve_perm_invariant (env : Go.Env) (st' : Store) (hst : permStore env.st st') (hn : StoreKeysNodup env.st)
+    (fuel : Nat) (root : NodeId) (base : String) :
+    match Go.resolve env fuel root base, Go.resolve { env with st := st' } fuel root base with
+    | .ok a, .ok b =>
+      b.root = a.root ∧ b.draft = a.draft ∧ b.log = a.log ∧ ∀ id, Go.lookupNat id b.infos = Go.lookupNat id a.infos
+    | .err, .err => True
+    | .panic, .panic => True
+    | .fuel, .fuel => True
+    | _, _ => False := by
+  have h := Go.RPerm.resolve_rel env st' hst hn fuel root base
+  cases h1 : Go.resolve env fuel root base <;> cases h2 : Go.resolve { env with st := st' } fuel root base <;>
+    rw [h1, h2] at h <;> exact h
+
+/-- in particular: the same verdict on success / failure -/
+theorem resolve_perm_isOk (env : Go.Env) (st' : Store) (hst : permStore env.st st') (hn : StoreKeysNodup env.st)
+    (fuel : Nat) (root : NodeId) (base : String) :
+    (Go.resolve { env with st := st' } fuel root base).isOk = (Go.resolve env fuel root base).isOk := by
+  have h := resolve_perm_invariant env st' hst hn fuel root base
+  cases h1 : Go.resolve env fuel root base <;> cases h2 : Go.resolve { env with st := st' } fuel root base <;>
+    rw [h1, h2] at h <;> first | exact h.elim | rfl
+
 /-! ## The hypotheses are satisfiable on non-trivial data
 
 `{"properties":{"a":{"type":"object","required":["x"]},"b":{"enum":[{"p":1,"q":[2]}]}},"patternProperties":{"^c":{}},
@@ -270,6 +353,22 @@ example (kvs : List (String × GoVal)) :
   depRequiredLoop_perm kvs _ _ (List.Perm.swap _ _ _)
 example (kvs : List (String × GoVal)) : Go.allPresent kvs ["x", "y"] = Go.allPresent kvs ["y", "x"] :=
   allPresent_perm kvs _ _ (List.Perm.swap _ _ _)
+
+/-- Resolve on the two stores: the info tables come out in different orders (1 before 2, 2 before 1) … -/
+def exREnv : Go.Env := { st := exStore1, reOk := fun _ => true, loader := none }
+example : ((Go.resolve exREnv 3 0 "").bind fun rs => .ok (rs.infos.map (·.1))) = .ok [0, 3, 1, 2, 4, 5] := by
+  decide +kernel
+example : ((Go.resolve { exREnv with st := exStore2 } 3 0 "").bind fun rs => .ok (rs.infos.map (·.1))) =
+    .ok [0, 3, 2, 1, 4, 5] := by
+  decide +kernel
+/-- … and `resolve_perm_invariant` applied: as maps they are the same -/
+example (a b : Resolved) (ha : Go.resolve exREnv 3 0 "" = .ok a)
+    (hb : Go.resolve { exREnv with st := exStore2 } 3 0 "" = .ok b) (id : NodeId) :
+    Go.lookupNat id b.infos = Go.lookupNat id a.infos := by
+  have h := resolve_perm_invariant exREnv exStore2 exPermStore
+    (Go.RPerm.storeKeysNodup_of_check _ (by decide)) 3 0 ""
+  rw [ha, hb] at h
+  exact h.2.2.2 id
 
 /-! ## why `propertiesLoop_perm` needs decided applications
 
